@@ -144,3 +144,104 @@ Corollary path_json_injective l1 l2 :
 Proof.
   intros H1 H2 E. pose proof (path_json_roundtrip l1 H1) as R1. rewrite E, (path_json_roundtrip l2 H2) in R1. inversion R1. reflexivity.
 Qed.
+
+(** ** the query-parameter rendering: the same text without the leading dot of a first key *)
+Fixpoint lead (l : vpr) : string :=
+  match l with
+  | Origin => ""
+  | Key _ Origin => "."
+  | Key _ p => lead p
+  | Index _ p => lead p
+  end.
+
+Lemma app_assoc_s (a b c : string) : (a ++ b) ++ c = a ++ (b ++ c).
+Proof. induction a as [|x a IH]; cbn; [reflexivity|]. rewrite IH. reflexivity. Qed.
+
+Lemma path_json_qp l : path_json l = lead l ++ path_qp l.
+Proof.
+  induction l as [|k prev IH|i prev IH]; [reflexivity| |].
+  - cbn [path_json path_qp lead]. destruct prev as [|k' p'|i' p']; [reflexivity| |]; rewrite IH, app_assoc_s; reflexivity.
+  - cbn [path_json path_qp lead]. rewrite IH, app_assoc_s. reflexivity.
+Qed.
+
+(** the outermost step decides how the text starts *)
+Fixpoint starts_with_key (l : vpr) : option string :=
+  match l with
+  | Origin => None
+  | Key k Origin => Some k
+  | Key _ p => starts_with_key p
+  | Index _ Origin => None
+  | Index _ p => starts_with_key p
+  end.
+
+Definition qp_ok (l : vpr) : bool :=
+  plain_keys l && match starts_with_key l with Some k => negb (String.eqb k "") | None => true end.
+
+Definition parse_path_qp (s : string) : option (list step) :=
+  match s with
+  | EmptyString => Some []
+  | String c _ => if Ascii.eqb c "[" then parse_path s else parse_path ("." ++ s)
+  end.
+
+Lemma lead_cases l : (lead l = "." /\ exists k, starts_with_key l = Some k) \/ (lead l = "" /\ starts_with_key l = None).
+Proof.
+  induction l as [|k prev IH|i prev IH]; [right; split; reflexivity| |].
+  - destruct prev as [|k' p'|i' p']; [left; split; [reflexivity|exists k; reflexivity]| |]; exact IH.
+  - destruct prev as [|k' p'|i' p']; [right; split; reflexivity| |]; exact IH.
+Qed.
+
+(** first character of the rendering *)
+Lemma path_qp_head l :
+  match starts_with_key l with
+  | Some k => exists rest, path_qp l = k ++ rest
+  | None => l = Origin \/ exists rest, path_qp l = String "[" rest
+  end.
+Proof.
+  induction l as [|k prev IH|i prev IH]; [left; reflexivity| |].
+  - destruct prev as [|k' p'|i' p'].
+    + cbn [starts_with_key path_qp]. exists "". rewrite app_empty_r. reflexivity.
+    + change (starts_with_key (Key k (Key k' p'))) with (starts_with_key (Key k' p')).
+      change (path_qp (Key k (Key k' p'))) with (path_qp (Key k' p') ++ "." ++ k).
+      destruct (starts_with_key (Key k' p')) as [k0|].
+      * destruct IH as [rest Hr]. exists (rest ++ "." ++ k). rewrite Hr, app_assoc_s. reflexivity.
+      * destruct IH as [H|[rest Hr]]; [discriminate|]. right. exists (rest ++ "." ++ k). rewrite Hr. reflexivity.
+    + change (starts_with_key (Key k (Index i' p'))) with (starts_with_key (Index i' p')).
+      change (path_qp (Key k (Index i' p'))) with (path_qp (Index i' p') ++ "." ++ k).
+      destruct (starts_with_key (Index i' p')) as [k0|].
+      * destruct IH as [rest Hr]. exists (rest ++ "." ++ k). rewrite Hr, app_assoc_s. reflexivity.
+      * destruct IH as [H|[rest Hr]]; [discriminate|]. right. exists (rest ++ "." ++ k). rewrite Hr. reflexivity.
+  - destruct prev as [|k' p'|i' p'].
+    + cbn [starts_with_key path_qp]. right. exists (dec_N i ++ "]"). reflexivity.
+    + change (starts_with_key (Index i (Key k' p'))) with (starts_with_key (Key k' p')).
+      change (path_qp (Index i (Key k' p'))) with (path_qp (Key k' p') ++ "[" ++ dec_N i ++ "]").
+      destruct (starts_with_key (Key k' p')) as [k0|].
+      * destruct IH as [rest Hr]. exists (rest ++ "[" ++ dec_N i ++ "]"). rewrite Hr, app_assoc_s. reflexivity.
+      * destruct IH as [H|[rest Hr]]; [discriminate|]. right. exists (rest ++ "[" ++ dec_N i ++ "]"). rewrite Hr. reflexivity.
+    + change (starts_with_key (Index i (Index i' p'))) with (starts_with_key (Index i' p')).
+      change (path_qp (Index i (Index i' p'))) with (path_qp (Index i' p') ++ "[" ++ dec_N i ++ "]").
+      destruct (starts_with_key (Index i' p')) as [k0|].
+      * destruct IH as [rest Hr]. exists (rest ++ "[" ++ dec_N i ++ "]"). rewrite Hr, app_assoc_s. reflexivity.
+      * destruct IH as [H|[rest Hr]]; [discriminate|]. right. exists (rest ++ "[" ++ dec_N i ++ "]"). rewrite Hr. reflexivity.
+Qed.
+
+Lemma starts_key_plain l k : plain_keys l = true -> starts_with_key l = Some k -> plain_key k = true.
+Proof.
+  induction l as [|k' prev IH|i prev IH]; intros Hp Hs; [discriminate| |]; cbn [plain_keys] in Hp.
+  - apply andb_prop in Hp. destruct Hp as [Hk Hp]. destruct prev as [|k2 p2|i2 p2]; [inversion Hs; subst; exact Hk| |]; apply IH; assumption.
+  - destruct prev as [|k2 p2|i2 p2]; [discriminate| |]; apply IH; assumption.
+Qed.
+
+Theorem path_qp_roundtrip l : qp_ok l = true -> parse_path_qp (path_qp l) = Some (to_owned l).
+Proof.
+  unfold qp_ok. intros H. apply andb_prop in H. destruct H as [Hp Hk].
+  pose proof (path_json_roundtrip l Hp) as Hj. rewrite path_json_qp in Hj.
+  pose proof (path_qp_head l) as Hh.
+  destruct (lead_cases l) as [[Hl [k Hs]]|[Hl Hs]]; rewrite Hl in Hj; rewrite Hs in *.
+  - destruct Hh as [rest Hr]. apply Bool.negb_true_iff, String.eqb_neq in Hk.
+    destruct k as [|c k']; [contradiction|]. rewrite Hr in *. cbn [append] in *. unfold parse_path_qp.
+    pose proof (starts_key_plain l (String c k') Hp Hs) as Hpk. cbn [plain_key] in Hpk.
+    apply andb_prop in Hpk. destruct Hpk as [Hc _]. apply andb_prop in Hc. destruct Hc as [_ Hc].
+    apply Bool.negb_true_iff in Hc. rewrite Hc. exact Hj.
+  - cbn [append] in Hj. destruct Hh as [->|[rest Hr]]; [reflexivity|]. rewrite Hr in *. unfold parse_path_qp.
+    replace (Ascii.eqb "[" "[") with true by reflexivity. exact Hj.
+Qed.
